@@ -434,13 +434,13 @@ theorem findIdx_occSetFrom (t : Int) : ∀ (ts : List Int) (i k : Nat),
     rw [ih]
     rfl
 
-theorem occSetFrom_getElem? : ∀ (ts : List Int) (i j : Nat),
+theorem occSetFrom_getElemOpt : ∀ (ts : List Int) (i j : Nat),
     (occSetFrom ts i)[j]? = ts[j]?.map (fun t => (TS.step t, Occ.placed (i + j)))
   | [], _, _ => by simp [occSetFrom]
   | a :: r, i, 0 => by simp [occSetFrom]
   | a :: r, i, j + 1 => by
     simp only [occSetFrom, List.getElem?_cons_succ]
-    rw [occSetFrom_getElem? r (i + 1) j]
+    rw [occSetFrom_getElemOpt r (i + 1) j]
     congr 1; funext t; congr 2; omega
 
 /-- Looking `t` up in the occupancy set of a trajectory prediction gives the shape placed at the FIRST state whose own time
@@ -455,7 +455,7 @@ theorem C04_occset_lookup (t0 : Int) (ts : List Int) (t : Int) :
     obtain ⟨i, hr, hi, _, _⟩ := (findIdx_spec _ ts 0 r).1 h
     have hri : r = i := by omega
     subst hri
-    simp [occSetFrom_getElem?, List.getElem?_eq_getElem hi]
+    simp [occSetFrom_getElemOpt, List.getElem?_eq_getElem hi]
 
 example : lookupOcc (occSetOf [3, 4, 5]) 4 = some (.placed 1) := by decide
 
